@@ -334,6 +334,80 @@ def t4_short_read(sx):
     return exercise(sx, w, "tt4:short-read-binary", max_cmds=400)
 
 
+def t4_blocks(sx, nsym, tail):
+    """the card answers the first nsym blocks after activation with arbitrary
+    short frames (PCB and up to two more bytes symbolic), then behaves as
+    `tail`: 'wtx' = asks for a waiting time extension for ever, 'ack' = answers
+    R(ACK) with the wrong block number for ever, 'gone' = silent"""
+    w = worlds.T4World(sx, 0x20, 255, 255, 16, 3, fill=0x41)
+    card = w.sim
+    orig = card.execute
+    state = dict(k=0)
+
+    def execute(cmd):
+        if not card.activated:
+            return orig(cmd)
+        state['k'] += 1
+        k = state['k']
+        if k <= nsym:
+            # PCB fully symbolic; a second and third byte from small sets (a
+            # status word becomes a dict key in the error class)
+            n = sx.pick("blen%d" % k, [1, 2, 3])
+            body = [sx.byte("pcb%d" % k)]
+            if n >= 2:
+                body.append(sx.pick("b%d_1" % k, [0x00, 0x01, 0x90, 0x6A]))
+            if n >= 3:
+                body.append(sx.pick("b%d_2" % k, [0x00, 0x82]))
+            return sx.mkbytes(body, True)
+        if tail == 'wtx':
+            return sx.mkbytes([0xF2, 0x01], True)
+        if tail == 'ack':
+            return sx.mkbytes([0xA2 | ((cmd[0] & 1) ^ 1)], True)
+        raise nfc.clf.TimeoutError("gone")
+    card.execute = execute
+    return exercise(sx, w, "tt4:arbitrary-blocks:" + tail, max_cmds=300)
+
+
+def t4_long_read(sx):
+    """READ BINARY answers longer than requested"""
+    w = worlds.T4World(sx, 0x20, 255, 255, 16, 9, fill=0x41)
+    card = w.sim
+    orig = card._apdu
+    state = dict(k=0)
+
+    def apdu(a):
+        r = orig(a)
+        if len(a) > 1 and a[1] == 0xB0 and len(r) >= 2:
+            state['k'] += 1
+            extra = sx.pick("extra%d" % state['k'], [0, 1, 40]) if state['k'] <= 5 else 0
+            return r[:-2] + [0x5A] * extra + r[-2:]
+        return r
+    card._apdu = apdu
+    return exercise(sx, w, "tt4:long-read-binary", max_cmds=400)
+
+
+def t4_v3_big(sx):
+    """mapping version 3, NLEN above 65535, a card that serves any offset"""
+    w = worlds.T4World(sx, 0x30, 255, 255, 16, 3, fill=0x41)
+    card = w.sim
+    cc = card.files[0xE103]
+    # file control TLV 06 08 E104 <size 4 bytes> 00 00: size 00 02 00 00
+    cc[7:17] = [0x06, 0x08, 0xE1, 0x04, 0x00, 0x02, 0x00, 0x00, 0x00, 0x00]
+    f = card.files[0xE104]
+    f[0:4] = [0x00, 0x01, 0x00, sx.byte("nlen_lo")]
+    orig = card._apdu
+
+    def apdu(a):
+        if len(a) == 5 and a[1] == 0xB0 and card.cur == 0xE104:
+            off = (a[2] << 8) | a[3]
+            le = a[4] or 256
+            if off >= 4:
+                return [0x41] * le + [0x90, 0x00]
+        return orig(a)
+    card._apdu = apdu
+    return exercise(sx, w, "tt4:v3-large-nlen", max_cmds=700)
+
+
 def t4_gone(sx, n):
     w = worlds.T4World(sx, 0x20, 20, 9, 40, n, fill=0x41)
     return exercise(sx, w, "tt4:goes-silent", silence=True)
@@ -384,6 +458,10 @@ def partitions(tier):
     for f in ("cclen", "ver", "mle", "mlc", "tlv", "fid", "size", "access"):
         add("t4:cc:" + f, "t4_cc", field=f)
     add("t4:nlen", "t4_nlen")
+    for tail in ("wtx", "ack", "gone"):
+        add("t4:blocks:%s" % tail, "t4_blocks", nsym=1 if tier == "quick" else 2, tail=tail)
+    add("t4:long-read", "t4_long_read")
+    add("t4:v3-big", "t4_v3_big")
     add("t4:short-read", "t4_short_read")
     add("t4:gone", "t4_gone", n=30)
     return P
